@@ -46,18 +46,23 @@ func (p *PKCS7PaddingReader) Read(buf []byte) (int, error) {
 	var n, off = 0, 0
 	var err error
 	if !p.eof {
-		// 读取文件
-		n, err = p.fIn.Read(buf)
-		if err != nil && !errors.Is(err, io.EOF) {
-			// 错误返回
-			return 0, err
+		// 读取文件: 输入流可能返回少于请求长度的数据(short read)，
+		// 只有读到 EOF 才表示文件结束，因此循环读取直到缓冲区填满或文件结束
+		for n < len(buf) && !p.eof {
+			var m int
+			m, err = p.fIn.Read(buf[n:])
+			if err != nil && !errors.Is(err, io.EOF) {
+				// 错误返回
+				return 0, err
+			}
+			n += m
+			p.readed += int64(m)
+			if errors.Is(err, io.EOF) {
+				// 标志文件结束
+				p.eof = true
+			}
 		}
-		p.readed += int64(n)
-		if errors.Is(err, io.EOF) {
-			// 标志文件结束
-			p.eof = true
-		}
-		if n == len(buf) {
+		if !p.eof {
 			// 长度足够直接返回
 			return n, nil
 		}
